@@ -801,7 +801,7 @@ func C17(c *core.Ctx) {
 				}
 			})
 		}
-		c.Decide(bad == "" && nLit >= 3, "R17.5", "every-outpkt-names-incoming-face", "-", fmt.Sprintf("%d OutPkt constructions, each with a non-nil InFace (IdPtr, address of a local, or a nil-checked field)", nLit), "an OutPkt is built without a (provably non-nil) incoming face ("+bad+"): when it is sent to the management thread's internal face the frame carries no IncomingFaceId and InternalTransport.Receive dereferences nil")
+		c.Decide(bad == "" && nLit >= 2, "R17.5", "every-outpkt-names-incoming-face", "-", fmt.Sprintf("%d OutPkt constructions, each with a non-nil InFace (IdPtr, address of a local, or a nil-checked field)", nLit), "an OutPkt is built without a (provably non-nil) incoming face ("+bad+"): when it is sent to the management thread's internal face the frame carries no IncomingFaceId and InternalTransport.Receive dereferences nil")
 	}
 }
 
